@@ -20,3 +20,12 @@ class ConstFZ(Command):
 
     def execute(self, **kw):
         return TABLE[kw["Key"]]()
+
+
+class NoOut(Command):
+    """declares no output (like the pinned CSV EEMSWrite)"""
+
+    inputs = {"Key": params.StringParameter(required=False)}
+
+    def execute(self, **kw):
+        return None
